@@ -546,3 +546,75 @@ pub fn header_soup(rng: &mut Rng, spec: &SpecTable, n: usize) -> Vec<u8> {
     }
     out
 }
+
+/// Pads one known-size master (at any depth) with a Void child so that its content length lands on a
+/// size-field boundary (126..128, 16382..16384), if Void is allowed there.
+pub fn pad_to_boundary(rng: &mut Rng, spec: &SpecTable, doc: &mut Vec<crate::enc::Node>) {
+    use crate::enc::{encode, encodable};
+    fn master_paths(s: &[Node], p: &mut Vec<usize>, out: &mut Vec<Vec<usize>>) {
+        for (i, n) in s.iter().enumerate() {
+            p.push(i);
+            if n.is_master() && !n.enc.unknown {
+                out.push(p.clone());
+            }
+            master_paths(n.children(), p, out);
+            p.pop();
+        }
+    }
+    fn at<'a>(s: &'a mut [Node], p: &[usize]) -> &'a mut Node {
+        let n = &mut s[p[0]];
+        if p.len() == 1 {
+            n
+        } else {
+            match &mut n.body {
+                Body::Master(cs) => at(cs, &p[1..]),
+                _ => unreachable!(),
+            }
+        }
+    }
+    let mut paths = Vec::new();
+    master_paths(doc, &mut Vec::new(), &mut paths);
+    if paths.is_empty() {
+        return;
+    }
+    let path = rng.pick(&paths).clone();
+    let mut chain: Vec<u64> = Vec::new();
+    for d in 1..=path.len() {
+        chain.push(at(doc, &path[..d]).id);
+    }
+    if !spec.allowed(crate::spec::VOID_ID, &chain) {
+        return;
+    }
+    let n = at(doc, &path);
+    let cur = encode(std::slice::from_ref(n)).layout.elems[0].size.unwrap_or(0) as usize;
+    let target = *rng.pick(&[126usize, 127, 127, 128, 16382, 16383, 16383, 16384]);
+    // a Void element of payload p costs 1 (id) + size width + p
+    if target < cur + 2 {
+        return;
+    }
+    let room = target - cur;
+    let p = if room - 2 < 127 {
+        room - 2
+    } else if room >= 3 {
+        room - 3
+    } else {
+        return;
+    };
+    let v = Node::leaf(crate::spec::VOID_ID, Val::B(vec![0; p]));
+    if let Body::Master(cs) = &mut n.body {
+        // not directly after an unknown-size child (ambiguous by the properties' own exclusion)
+        if cs.last().map(|c| c.is_master() && c.enc.unknown).unwrap_or(false) {
+            return;
+        }
+        cs.push(v);
+    }
+    // explicit widths on the way up may no longer hold the sizes
+    let root = &mut doc[path[0]];
+    if !encodable(root) {
+        root.visit_mut(&mut |x| {
+            if !x.enc.unknown {
+                x.enc.size_w = 0;
+            }
+        });
+    }
+}
